@@ -32,7 +32,7 @@ ASSUMPTIONS = ["criteria relying on the default search are exercised in float64 
                "the bisection precision 1e-6 (x Lipschitz constant <= 4) in the criterion value",
                "float32 samples are kept below 8 in magnitude for default-search criteria (the search precision 1e-6 is below one ulp beyond that; "
                "termination of bisect is property C19, not claimed)"]
-PROBES = ["search_precision_in_criterion_units", "earlier_quote_aborted", "price_recomputed", "shift_equivariance", "erm_price_equals_loss", "cash_certainty_equivalent", "constant_sample", "multi_column_sample",
+PROBES = ["narrow_bracket_at_a_high_level", "search_precision_in_criterion_units", "earlier_quote_aborted", "price_recomputed", "shift_equivariance", "erm_price_equals_loss", "cash_certainty_equivalent", "constant_sample", "multi_column_sample",
           "default_search", "n_times_ge2", "fresh_clone", "other_actor_between", "init_state", "listed_hedge", "flat_market", "single_path"]
 CRITS = ["EntropicRiskMeasure", "EntropicLoss", "IsoelasticLoss", "ExpectedShortfall", "QuadraticCVaR", "UserES", "UserMeanStd"]
 DEFAULT_SEARCH = {"IsoelasticLoss", "UserES", "UserMeanStd"}
@@ -276,6 +276,12 @@ def _execute(program, stats, hist):
                 stats.ambiguous_skipped += 1  # non-finite P&L (a C18 matter), nothing to say about cash here
                 continue
             _cash_checks(h.criterion, ck, pl, kind, dtype, cfg, stats, seq)
+            if ck in DEFAULT_SEARCH and dtype == torch.float64 and kind == "1d" and float(pl.max() - pl.min()) > 0:
+                # the same book quoted as wealth around 1e4 with a spread of ~1e-3: the search bracket is narrow relative to
+                # its level (rtol-style shortcuts treat it as degenerate), the certainty equivalent is still inside it
+                far = 1e4 + (pl - pl.mean()) / float((pl.max() - pl.min())) * 1e-3
+                stats.probe("narrow_bracket_at_a_high_level")
+                _cash_checks(h.criterion, ck, far, kind, dtype, dict(cfg, far_level=True), stats, seq)
         # ---- 2. payoff shift: price(payoff + k) - price(payoff) == k.  This consequence holds for the cash-invariant
         # criteria only; the isoelastic (CRRA) certainty equivalent is not translation invariant, so it is not asserted there.
         k = op["k"]
@@ -381,20 +387,21 @@ def _cash_checks(crit, ck, pl, kind, dtype, cfg, stats, seq):
             raise Violation(ID, "cash_not_minus_risk", site, dict(cfg, cash=cash, risk=val), seq)
     else:
         okv = (cval.double() - val.double()).abs() <= tol_v
-        if loose and not bool(okv.all()):
+        if loose:
             # the default search stops when its bracket is narrower than 1e-6 *in cash*; what that is worth in the criterion
             # depends on the criterion's slope there (log utility at an outcome of 0.06: 16 per unit). The statement is that
             # the reported amount is within the search precision of the certainty equivalent: the criterion of the sample
             # lies between the criterion of the constants cash -/+ 2e-6
             try:
                 with torch.no_grad():
-                    c_lo = crit((cash - 2e-6 * mag).unsqueeze(0).expand(pl.shape).clone()).double()
-                    c_hi = crit((cash + 2e-6 * mag).unsqueeze(0).expand(pl.shape).clone()).double()
-                slack = 256 * eps * (mag + abs(float(val.abs().max())))
+                    delta = 2e-6 + 64 * eps * mag      # the search precision is absolute (1e-6 in cash), plus rounding at this level
+                    c_lo = crit((cash - delta).unsqueeze(0).expand(pl.shape).clone()).double()
+                    c_hi = crit((cash + delta).unsqueeze(0).expand(pl.shape).clone()).double()
+                slack = 256 * eps * abs(float(val.abs().max())) + 1e-300
                 inside = (val.double() >= torch.minimum(c_lo, c_hi) - slack) & (val.double() <= torch.maximum(c_lo, c_hi) + slack)
-                if bool((inside & torch.isfinite(c_lo) & torch.isfinite(c_hi) | okv).all()):
-                    okv = torch.ones_like(okv)
-                    stats.probe("search_precision_in_criterion_units")
+                usable = torch.isfinite(c_lo) & torch.isfinite(c_hi)
+                okv = torch.where(usable, inside, okv)
+                stats.probe("search_precision_in_criterion_units")
             except Exception:
                 pass
         if not bool(okv.all()):
